@@ -51,7 +51,7 @@ ADVERSARIAL = ("in__pt_0", "in__pt_1", "in_x0", "in_x1", "x0", "x1", "_pt_0",
 def plan(tier: str) -> dict:
     if tier == "thorough":
         return {"shards": 16, "examples": 1200, "cexec_every": 8}
-    return {"shards": 16, "examples": 100, "cexec_every": 0}
+    return {"shards": 16, "examples": 250, "cexec_every": 0}
 
 
 # {{{ generator
@@ -173,7 +173,7 @@ def _append_call(draw, spec, fns, k, fresh_names, as_output):
         kws.append(p["p"]["name"] if (kws and kws[-1] is not None)
                    or draw(st.integers(0, 2)) == 0 else None)
     call = {"op": "fncall", "args": args, "p": {
-        "fn": k, "kw": kws,
+        "fn": k, "kw": kws, "kw_reversed": draw(st.booleans()),
         "identifier": draw(st.sampled_from(["guess", "explicit"]))}}
     spec["nodes"].append(call)
     ci = len(spec["nodes"]) - 1
